@@ -422,8 +422,10 @@ class FieldHandler:
 
 
     def handled_elsewhere(self, field: Field) -> None:
-        # Some fields are handled by extract_fields below.
-        pass
+        # Some fields are handled by extract_fields below,
+        # but only the docstrings of modules and classes are processed there.
+        if not isinstance(self.obj, model.CanContainImportsDocumentable):
+            field.report(f"Field '{field.tag}' is only supported in module and class docstrings, ignored")
 
     handle_ivar = handled_elsewhere
     handle_cvar = handled_elsewhere
